@@ -90,7 +90,7 @@ func checkClosed(addr uintptr) string {
 }
 
 func TestSequential(t *testing.T) {
-	kit.Check(t, 400, 48000, func(t *rapid.T) {
+	kit.Check(t, 1200, 48000, func(t *rapid.T) {
 		impl := rapid.SampledFrom([]string{"memguard", "protectedmemory"}).Draw(t, "impl")
 		size := rapid.SampledFrom(sizes).Draw(t, "size")
 		create := rapid.SampledFrom([]string{"New", "CreateRandom"}).Draw(t, "create")
@@ -398,7 +398,7 @@ func TestConcurrent(t *testing.T) {
 		profiled[impl], profiledHits[impl] = sites, hits
 	}
 	kit.Rec.Extra("yield_sites_profiled", len(profiled["memguard"])+len(profiled["protectedmemory"]))
-	kit.Check(t, 250, 32000, func(t *rapid.T) {
+	kit.Check(t, 500, 32000, func(t *rapid.T) {
 		impl := rapid.SampledFrom([]string{"memguard", "protectedmemory"}).Draw(t, "impl")
 		size := rapid.SampledFrom([]int{1, 32, pageSize + 1}).Draw(t, "size")
 		readers := rapid.IntRange(2, 4).Draw(t, "readers")
